@@ -194,7 +194,7 @@ class Party(sut.BaseAlgorithm):
         mode = P.get("len_mode", "one")
         if mode == "mixed":
             mode = r.choice(["one", "few", "horizon"])
-        L = {"one": 1, "few": r.randint(1, 5), "horizon": remaining if remaining <= 1000 else r.randint(1, 5)}[mode]   # (plans for weeks ahead are not scripted)
+        L = {"one": 1, "few": r.randint(1, 5), "horizon": remaining if remaining * max(1, len(self.order)) <= 2500 else r.randint(1, 5)}[mode]   # (plans of thousands of cells are not scripted: cost)
         if force_len is not None:
             L = force_len
         sm = P.get("subset_mode", "all")
